@@ -12,7 +12,11 @@ package genbank
 // (identity clauses, one per field group) and by an independent strict reader
 // (c03ReadRecord: 12-column keyword field, feature key column 6, location and
 // qualifiers column 22, numbered ORIGIN rows of 60 in groups of 10, "//").
-// Determinism: the same record is built 128 times and the bytes compared.
+// Determinism: the same record is built 128 times and the bytes compared, the
+// first build being the first write the freshly assembled record goes through.
+// Every case keeps a deep copy of the record taken before the first write: the
+// identity clauses compare with that copy, and the record handed to the writer
+// must still equal it after the writes (class record-altered-by-writing).
 //
 // A failing case is attributed to a witness class by delta debugging over named
 // shape axes (c03Blame), as in C01.
@@ -50,6 +54,19 @@ type c03Feat struct {
 	Single     bool  // single base "a"
 	BreakAfter []int // indexes of ranges after which the writer starts a new line
 	Quals      []c03Qual
+	OpCompl    []bool // join only: operand i is written complement(a..b) (a complemented operand below the top level)
+}
+
+// c03OpC: operand i of the join is complemented.
+func (f *c03Feat) c03OpC(i int) bool { return f.Join && i < len(f.OpCompl) && f.OpCompl[i] }
+
+func c03AnyOpCompl(f *c03Feat) bool {
+	for i := range f.Ranges {
+		if f.c03OpC(i) {
+			return true
+		}
+	}
+	return false
 }
 
 type c03Ref struct {
@@ -107,6 +124,7 @@ func c03CloneRec(r *c03Rec) c03Rec {
 		x.Ranges = append([][2]int(nil), x.Ranges...)
 		x.BreakAfter = append([]int(nil), x.BreakAfter...)
 		x.Quals = append([]c03Qual(nil), x.Quals...)
+		x.OpCompl = append([]bool(nil), x.OpCompl...)
 		c.Feats[i] = x
 	}
 	return c
@@ -155,6 +173,9 @@ func c03LocParts(f *c03Feat) []string {
 	parts := make([]string, len(f.Ranges))
 	for i := range f.Ranges {
 		s := c03RangeText(f, i)
+		if f.c03OpC(i) {
+			s = "complement(" + s + ")"
+		}
 		if i == 0 {
 			s = "join(" + s
 			if f.Compl {
@@ -205,8 +226,8 @@ func c03LocStruct(f *c03Feat) (poly.Location, bool) {
 		return poly.Location{Start: r[0] - 1, End: r[1], Complement: f.Compl, FivePrimePartial: f.Partial == 1}, true
 	}
 	l := poly.Location{Join: true, Complement: f.Compl}
-	for _, r := range f.Ranges {
-		l.SubLocations = append(l.SubLocations, poly.Location{Start: r[0] - 1, End: r[1]})
+	for i, r := range f.Ranges {
+		l.SubLocations = append(l.SubLocations, poly.Location{Start: r[0] - 1, End: r[1], Complement: f.c03OpC(i)})
 	}
 	return l, true
 }
@@ -778,6 +799,22 @@ func c03Axes() []c03Axis {
 					}
 				})
 			}),
+		// an operand of a join inside complement(): a complemented node below
+		// the top level of the location
+		c03RecAxis("complemented-operand",
+			func(r *c03Rec) bool {
+				for i := range r.Feats {
+					if c03AnyOpCompl(&r.Feats[i]) {
+						return true
+					}
+				}
+				return false
+			},
+			func(r *c03Rec) {
+				for i := range r.Feats {
+					r.Feats[i].OpCompl = nil
+				}
+			}),
 		c03RecAxis("long-location",
 			func(r *c03Rec) bool {
 				for i := range r.Feats {
@@ -1203,7 +1240,12 @@ func c03GenLoc(rng *rand.Rand, f *c03Feat, n, lines, maxRanges int) {
 	for k := 1; k < lines; k++ {
 		f.BreakAfter = append(f.BreakAfter, k*m/lines-1)
 	}
-	// breaks the column limit asks for
+	c03FitBreaks(f)
+}
+
+// c03FitBreaks adds to f.BreakAfter the breaks the 58-column location field
+// asks for (the forced ones stay).
+func c03FitBreaks(f *c03Feat) {
 	parts := c03LocParts(f)
 	brk := map[int]bool{}
 	for _, b := range f.BreakAfter {
@@ -2115,7 +2157,8 @@ func c03ReadRecord(text string) (*c03Read, error) {
 
 type c03Result struct {
 	srcPanic   string
-	r          poly.Sequence
+	given      poly.Sequence // deep copy of the record taken before the first write: the record as it was given
+	r          poly.Sequence // the record handed to the writer (every write gets this same value)
 	out        []byte
 	buildPanic string
 	r2         poly.Sequence
@@ -2133,6 +2176,45 @@ func c03TryBuild(s poly.Sequence) (out []byte, panicMsg string) {
 	return Build(s), ""
 }
 
+func c03CopyLoc(l poly.Location) poly.Location {
+	c := l
+	if l.SubLocations != nil {
+		c.SubLocations = make([]poly.Location, len(l.SubLocations))
+		for i := range l.SubLocations {
+			c.SubLocations[i] = c03CopyLoc(l.SubLocations[i])
+		}
+	}
+	return c
+}
+
+func c03CopyMap(m map[string]string) map[string]string {
+	if m == nil {
+		return nil
+	}
+	c := make(map[string]string, len(m))
+	for k, v := range m {
+		c[k] = v
+	}
+	return c
+}
+
+// c03CopySeq: a deep copy that shares no slice, map or location node with s
+// (ParentSequence is left out: it is not something the writer is given to
+// write).
+func c03CopySeq(s poly.Sequence) poly.Sequence {
+	c := s
+	c.Meta.References = append([]poly.Reference(nil), s.Meta.References...)
+	c.Meta.Other = c03CopyMap(s.Meta.Other)
+	c.Features = make([]poly.Feature, len(s.Features))
+	for i, ft := range s.Features {
+		ft.Attributes = c03CopyMap(ft.Attributes)
+		ft.SequenceLocation = c03CopyLoc(ft.SequenceLocation)
+		ft.ParentSequence = nil
+		c.Features[i] = ft
+	}
+	return c
+}
+
 func c03Source(f *c03File) (poly.Sequence, string) {
 	if f.Mode == c03ModeImage {
 		return c03TryParse(c03FileText(f))
@@ -2147,6 +2229,7 @@ func c03Run(f *c03File, viaFile string) *c03Result {
 	if res.srcPanic != "" {
 		return res
 	}
+	res.given = c03CopySeq(res.r)
 	res.out, res.buildPanic = c03TryBuild(res.r)
 	if res.buildPanic != "" {
 		return res
@@ -2210,13 +2293,15 @@ func c03Topo(l poly.Locus) string {
 	return ""
 }
 
-// identity clauses: got = Parse(Build(r)) against r ("read back" vs "given").
-func c03RtSeq(res *c03Result, f *c03File) string {
-	return c03Diff("Sequence", res.r2.Sequence, res.r.Sequence)
-}
+// identity clauses: got = Parse(Build(r)) against r as it was given ("read
+// back" vs "given"), and r itself after the writes against the deep copy taken
+// before the first one (nothing the writer is given is altered).
+const c03AlteredPrefix = "record altered by writing: "
 
-func c03RtLocus(res *c03Result, f *c03File) string {
-	g, w := res.r2.Meta.Locus, res.r.Meta.Locus
+func c03CmpSeq(g, w *poly.Sequence) string { return c03Diff("Sequence", g.Sequence, w.Sequence) }
+
+func c03CmpLocus(gs, ws *poly.Sequence) string {
+	g, w := gs.Meta.Locus, ws.Meta.Locus
 	return c03First(
 		c03Diff("Locus.Name", g.Name, w.Name),
 		c03Diff("Locus.SequenceLength", g.SequenceLength, w.SequenceLength),
@@ -2226,8 +2311,8 @@ func c03RtLocus(res *c03Result, f *c03File) string {
 		c03Diff("Locus.ModificationDate", g.ModificationDate, w.ModificationDate))
 }
 
-func c03RtMeta(res *c03Result, f *c03File) string {
-	g, w := res.r2.Meta, res.r.Meta
+func c03CmpMeta(gs, ws *poly.Sequence) string {
+	g, w := gs.Meta, ws.Meta
 	d := c03First(
 		c03Diff("Definition", g.Definition, w.Definition),
 		c03Diff("Accession", g.Accession, w.Accession),
@@ -2261,12 +2346,15 @@ func c03RefsEq(got []poly.Reference, want []poly.Reference) string {
 	return ""
 }
 
-func c03RtRefs(res *c03Result, f *c03File) string {
-	return c03RefsEq(res.r2.Meta.References, res.r.Meta.References)
+func c03CmpRefs(gs, ws *poly.Sequence) string {
+	return c03RefsEq(gs.Meta.References, ws.Meta.References)
 }
 
-func c03RtFeats(res *c03Result, f *c03File) string {
-	got, want := res.r2.Features, res.r.Features
+// c03CmpFeats: strict = the record against its own copy (text and structure
+// must both be what they were), else a record read back against the one given
+// (location text where that has text, structure otherwise).
+func c03CmpFeats(gs, ws *poly.Sequence, strict bool) string {
+	got, want := gs.Features, ws.Features
 	n := len(got)
 	if len(want) < n {
 		n = len(want)
@@ -2277,7 +2365,14 @@ func c03RtFeats(res *c03Result, f *c03File) string {
 		if d := c03Diff(p+"key", g.Type, w.Type); d != "" {
 			return d
 		}
-		if w.GbkLocationString != "" {
+		if strict {
+			if d := c03Diff(p+"location text", g.GbkLocationString, w.GbkLocationString); d != "" {
+				return d
+			}
+			if !c03LocEq(g.SequenceLocation, w.SequenceLocation) {
+				return fmt.Sprintf("%sSequenceLocation: after the write(s) %s, given %s", p, c03LocShow(g.SequenceLocation), c03LocShow(w.SequenceLocation))
+			}
+		} else if w.GbkLocationString != "" {
 			if d := c03Diff(p+"location text", g.GbkLocationString, w.GbkLocationString); d != "" {
 				return d
 			}
@@ -2294,12 +2389,74 @@ func c03RtFeats(res *c03Result, f *c03File) string {
 	return ""
 }
 
+// c03LocShow: a location tree in short, for messages (Start is 0-based, End
+// exclusive, as stored; C = Complement set, J = Join set on the node).
+func c03LocShow(l poly.Location) string {
+	s := ""
+	if l.Complement {
+		s += "C"
+	}
+	if l.Join {
+		s += "J"
+	}
+	if l.FivePrimePartial {
+		s += "<"
+	}
+	if l.ThreePrimePartial {
+		s += ">"
+	}
+	if len(l.SubLocations) == 0 {
+		return s + "{" + strconv.Itoa(l.Start) + "," + strconv.Itoa(l.End) + "}"
+	}
+	parts := make([]string, len(l.SubLocations))
+	for i, k := range l.SubLocations {
+		parts[i] = c03LocShow(k)
+	}
+	return s + "[" + strings.Join(parts, " ") + "]"
+}
+
+func c03CmpFeatsStrict(g, w *poly.Sequence) string { return c03CmpFeats(g, w, true) }
+func c03CmpFeatsRead(g, w *poly.Sequence) string   { return c03CmpFeats(g, w, false) }
+
+// c03Altered: what the writes changed in the record they were given, by field
+// group ("" = nothing).
+func c03Altered(res *c03Result, cmp func(g, w *poly.Sequence) string) string {
+	if d := cmp(&res.r, &res.given); d != "" {
+		return c03AlteredPrefix + "after the write(s) the record handed to Build differs from the copy taken before: " + d
+	}
+	return ""
+}
+
+func c03AlteredAny(res *c03Result) string {
+	return c03First(c03Altered(res, c03CmpSeq), c03Altered(res, c03CmpLocus), c03Altered(res, c03CmpMeta), c03Altered(res, c03CmpRefs), c03Altered(res, c03CmpFeatsStrict))
+}
+
+func c03RtSeq(res *c03Result, f *c03File) string {
+	return c03First(c03Altered(res, c03CmpSeq), c03CmpSeq(&res.r2, &res.given))
+}
+
+func c03RtLocus(res *c03Result, f *c03File) string {
+	return c03First(c03Altered(res, c03CmpLocus), c03CmpLocus(&res.r2, &res.given))
+}
+
+func c03RtMeta(res *c03Result, f *c03File) string {
+	return c03First(c03Altered(res, c03CmpMeta), c03CmpMeta(&res.r2, &res.given))
+}
+
+func c03RtRefs(res *c03Result, f *c03File) string {
+	return c03First(c03Altered(res, c03CmpRefs), c03CmpRefs(&res.r2, &res.given))
+}
+
+func c03RtFeats(res *c03Result, f *c03File) string {
+	return c03First(c03Altered(res, c03CmpFeatsStrict), c03CmpFeatsRead(&res.r2, &res.given))
+}
+
 // layout clause: what the independent reader recovers from Build's text against r.
 func c03Layout2(res *c03Result, f *c03File) string {
 	if res.rdErr != nil {
 		return "independent reader: " + res.rdErr.Error()
 	}
-	rd, w := res.rd, &res.r
+	rd, w := res.rd, &res.given // the record as it was given
 	l := w.Meta.Locus
 	if d := c03First(
 		c03Diff("sequence", rd.Seq, w.Sequence),
@@ -2412,7 +2569,10 @@ func c03NBuilds(r *poly.Sequence) int {
 
 // c03Nondet builds r c03Builds times and says whether the text before the
 // FEATURES line (keyword blocks) and the text from it on (feature table) vary.
-func c03Nondet(r poly.Sequence) (headVaries, tailVaries bool, detail string) {
+// first, when not nil, is the first write of r, made before the call (r has
+// then been through one write already); the writes made here are compared
+// with it and count from 2.
+func c03Nondet(r poly.Sequence, first []byte) (headVaries, tailVaries bool, detail string) {
 	split := func(o []byte) (string, string) {
 		s := string(o)
 		if k := strings.Index(s, "\nFEATURES "); k >= 0 {
@@ -2420,9 +2580,12 @@ func c03Nondet(r poly.Sequence) (headVaries, tailVaries bool, detail string) {
 		}
 		return s, ""
 	}
-	first, pm := c03TryBuild(r)
-	if pm != "" {
-		return false, false, ""
+	if first == nil {
+		var pm string
+		first, pm = c03TryBuild(r)
+		if pm != "" {
+			return false, false, ""
+		}
 	}
 	h0, t0 := split(first)
 	for i := 1; i < c03NBuilds(&r); i++ {
@@ -2451,6 +2614,52 @@ func c03Nondet(r poly.Sequence) (headVaries, tailVaries bool, detail string) {
 	return
 }
 
+// c03ComplBelowTop: the location has a complemented node below its top level.
+func c03ComplBelowTop(l poly.Location) bool {
+	for _, s := range l.SubLocations {
+		if s.Complement || c03ComplBelowTop(s) {
+			return true
+		}
+	}
+	return false
+}
+
+// c03WritesAlter: two writes of the record of g leave it different from the
+// copy taken before the first.
+func c03WritesAlter(g *c03File) bool {
+	res := &c03Result{}
+	res.r, res.srcPanic = c03Source(g)
+	if res.srcPanic != "" {
+		return false
+	}
+	res.given = c03CopySeq(res.r)
+	for i := 0; i < 2; i++ {
+		if _, pm := c03TryBuild(res.r); pm != "" {
+			return false
+		}
+	}
+	return c03AlteredAny(res) != ""
+}
+
+var c03AlteredMu sync.Mutex
+var c03AlteredSeen int
+
+// c03AlteredWitness reduces a case whose record is altered by writing to the
+// shape axes that must stay for that and describes the reduced case. The
+// reduction is made for the first 500 such cases only (the record keeps three
+// examples per class).
+func c03AlteredWitness(f *c03File) (input, axes string) {
+	c03AlteredMu.Lock()
+	c03AlteredSeen++
+	n := c03AlteredSeen
+	c03AlteredMu.Unlock()
+	if n > 500 || !c03WritesAlter(f) {
+		return c03Describe(f), ""
+	}
+	cl, min := c03Blame(f, c03WritesAlter)
+	return c03Describe(&min), " (shape that must stay: " + cl + ")"
+}
+
 func c03Describe(f *c03File) string {
 	if f.Mode == c03ModeImage {
 		return "[record = Parse of this file] " + c03Show(c03FileText(f))
@@ -2476,22 +2685,37 @@ func c03Eval(key string, f *c03File, viaFile string) []c03Out {
 	if res.srcPanic != "" {
 		return nil
 	}
-	// determinism
-	nt := len(res.r.Meta.Other) >= 2
-	for _, ft := range res.r.Features {
-		if len(ft.Attributes) >= 2 {
+	// determinism: the write c03Run made of the freshly assembled record is
+	// write 1, the further writes of the same record are compared with it
+	nt := len(res.given.Meta.Other) >= 2
+	for _, ft := range res.given.Features {
+		if len(ft.Attributes) >= 2 || (ft.GbkLocationString == "" && c03ComplBelowTop(ft.SequenceLocation)) {
 			nt = true
 		}
 	}
 	outs = append(outs, c03Out{run: c03RunDet, key: key, nontrivial: nt})
-	headV, tailV, det := c03Nondet(res.r)
+	headV, tailV, det := false, false, ""
+	if res.buildPanic == "" {
+		headV, tailV, det = c03Nondet(res.r, res.out)
+	}
+	if headV || tailV {
+		if alt := c03AlteredAny(res); alt != "" {
+			// the writes differ because writing changed the record: one class,
+			// whatever part of the text shows it; what still varies once the
+			// record has settled is classified below as before
+			in, axes := c03AlteredWitness(f)
+			outs = append(outs, c03Out{run: c03RunDet, key: key, failed: true, noCase: true, class: "record-altered-by-writing", input: in,
+				detail: det + axes + "; " + alt})
+			headV, tailV, det = c03Nondet(res.r, nil)
+		}
+	}
 	// the class follows from where the outputs differ; the witness is the case
 	// with everything else neutralised, if that still shows it
 	witness := func(head bool, keeps ...[]string) (string, string) {
 		for _, k := range keeps {
 			g := c03KeepOnly(f, k...)
 			if r, pm := c03Source(&g); pm == "" {
-				if h, t, d := c03Nondet(r); (head && h) || (!head && t) {
+				if h, t, d := c03Nondet(r, nil); (head && h) || (!head && t) {
 					return c03Describe(&g), d
 				}
 			}
@@ -2520,8 +2744,11 @@ func c03Eval(key string, f *c03File, viaFile string) []c03Out {
 	outs = append(outs, po)
 	for ci := range c03Clauses {
 		c := &c03Clauses[ci]
-		o := c03Out{run: c.run, key: key, nontrivial: c.nontrivial(&res.r)}
-		if d := c03ClauseFails(c, res, f); d != "" {
+		o := c03Out{run: c.run, key: key, nontrivial: c.nontrivial(&res.given)}
+		if d := c03ClauseFails(c, res, f); strings.HasPrefix(d, c03AlteredPrefix) {
+			in, axes := c03AlteredWitness(f)
+			o.failed, o.class, o.input, o.detail = true, "record-altered-by-writing", in, strings.TrimSpace(axes)+" "+d
+		} else if d != "" {
 			cl, min := c03Blame(f, func(g *c03File) bool { return c03ClauseFails(c, c03Run(g, ""), g) != "" })
 			md := c03ClauseFails(c, c03Run(&min, ""), &min)
 			if md == "" {
@@ -2542,6 +2769,26 @@ var c03NameLengths = []int{1, 2, 3, 4, 5, 6, 7, 8, 9, 10, 11, 12, 13, 14, 15, 16
 var c03EmptyKinds = []string{"ORGANISM", "SOURCE", "SOURCE+ORGANISM", "DEFINITION", "ACCESSION", "VERSION", "KEYWORDS",
 	"DEFINITION+ACCESSION+VERSION+KEYWORDS+SOURCE+ORGANISM", "COMMENT", "DBLINK", "COMMENT+DBLINK", "ORGANISM+COMMENT"}
 
+// which operands of the join are complemented in the enumeration
+var c03OpComplPatterns = []string{"all", "first", "last", "alternating"}
+
+func c03OpComplPattern(pattern, arity int) []bool {
+	out := make([]bool, arity)
+	for i := range out {
+		switch pattern {
+		case 0:
+			out[i] = true
+		case 1:
+			out[i] = i == 0
+		case 2:
+			out[i] = i == arity-1
+		default:
+			out[i] = i%2 == 0
+		}
+	}
+	return out
+}
+
 func TestVerifC03(t *testing.T) {
 	nRand := 300
 	if verifThorough() {
@@ -2550,20 +2797,21 @@ func TestVerifC03(t *testing.T) {
 	tmp := t.TempDir()
 	prof := c03Profile{MaxMeta: 2000, MaxQuals: 8, MaxLen: 100000, ManyOthers: true, LongTokens: true}
 
-	src := "records r from three sources: (a) Parse of a file laid out by an independent NCBI-layout writer, (b) structured poly.Sequence with GbkLocationString set, (c) structured with SequenceLocation only (locations a..b, complement, join, complement(join), 5' partial); "
+	src := "records r from three sources: (a) Parse of a file laid out by an independent NCBI-layout writer, (b) structured poly.Sequence with GbkLocationString set, (c) structured with SequenceLocation only (locations a..b, complement, join, complement(join), joins with complemented operands such as join(complement(a..b),complement(c..d)) and complement(join(complement(a..b),c..d)), 5' partial); every case keeps a deep copy of r taken before the first write; "
 	shapeDom := "shape enumeration: sequence length {7,12,345,1234,12345,100000} x qualifiers per feature {0,1,2,8} x value shape {plain,slash,equals,wrap,empty} x source {a,b,c}, two features, one reference with and without REMARK, 0..3 extra keyword blocks, DEFINITION up to 2000 characters in every third case; locus names of 1..24, 32 and 40 characters (16 = width of the name field in columns 13-28) x length {7,12,345} x source {a,b,c}, 4 molecule types x {linear,circular,none}; structured records (sources b, c) that carry a keyword with no text: {" + strings.Join(c03EmptyKinds, ", ") + "} empty (COMMENT, DBLINK = Meta.Other entries with empty text) x 0 or 1 reference x with or without a filled extra keyword; " +
 		"structured records (sources b, c) with every subset of the LOCUS columns {molecule type, topology, division, date} left empty (all four empty = a bare LOCUS line, name and length only) x length {7,345}; " +
-		"unbreakable tokens: one blank-free URL-like token of {69,100,300} characters (longer than the 68-column text field) as the whole text or as the first, a middle or the last word of two to three lines of text in each of {" + strings.Join(c03TokenPlaces, ", ") + "} (reference fields: of the one reference) x source {a,b,c} on a 345-letter record with one feature, one complete reference, DBLINK and COMMENT; "
-	randDom := fmt.Sprintf("plus %d seeded-random records (sources cycling a,b,c): length 1..100000 (digit count uniform), locus name 1..40 characters (17..40 in one case of twelve), in structured records ORGANISM and/or an extra keyword text empty in up to three cases of eight, 0..40 features with 0..8 qualifiers (values over printable ASCII without the double quote, single-spaced words, up to 230 characters), 0..5 references with optional TITLE/PUBMED/REMARK, COMMENT/DBLINK/PROJECT/SEGMENT blocks, metadata texts up to 2000 characters, in one record in five one blank-free token of 69..300 characters inside one of the texts (DEFINITION, KEYWORDS, SOURCE, ORGANISM, a reference field or an extra keyword block), in one structured record in six a non-empty subset of the LOCUS columns molecule type, topology, division, date left empty; every 50th random case goes through Write and Read on a temporary file; ", nRand)
+		"unbreakable tokens: one blank-free URL-like token of {69,100,300} characters (longer than the 68-column text field) as the whole text or as the first, a middle or the last word of two to three lines of text in each of {" + strings.Join(c03TokenPlaces, ", ") + "} (reference fields: of the one reference) x source {a,b,c} on a 345-letter record with one feature, one complete reference, DBLINK and COMMENT; " +
+		"complemented operands below the top level: two features whose location is a join of {2,3,4} spans with {all, the first, the last, every other} operand(s) written complement(a..b), the join plain or itself inside complement() x length {12,345} x 1 or 2 qualifiers x source {a,b,c} (source c = the structure alone, Complement set on the SubLocations; sources a, b lay the text out on lines of at most 58 columns); "
+	randDom := fmt.Sprintf("plus %d seeded-random records (sources cycling a,b,c): length 1..100000 (digit count uniform), locus name 1..40 characters (17..40 in one case of twelve), in structured records ORGANISM and/or an extra keyword text empty in up to three cases of eight, 0..40 features with 0..8 qualifiers (values over printable ASCII without the double quote, single-spaced words, up to 230 characters), 0..5 references with optional TITLE/PUBMED/REMARK, COMMENT/DBLINK/PROJECT/SEGMENT blocks, metadata texts up to 2000 characters, in one record in five one blank-free token of 69..300 characters inside one of the texts (DEFINITION, KEYWORDS, SOURCE, ORGANISM, a reference field or an extra keyword block), in one structured record in six a non-empty subset of the LOCUS columns molecule type, topology, division, date left empty; in every other random record each join gets, with probability 1/2, a random non-empty set of complemented operands; every 50th random case goes through Write and Read on a temporary file; ", nRand)
 	runs := []*verifRun{
-		newVerifRun("C03", "io/genbank.Build/determinism", src+shapeDom+randDom+fmt.Sprintf("each record built %d times (64 times above 20000 letters), all outputs byte-identical; non-trivial = at least 2 Meta.Other keys or a feature with at least 2 qualifiers", c03Builds)),
+		newVerifRun("C03", "io/genbank.Build/determinism", src+shapeDom+randDom+fmt.Sprintf("the same record value written %d times (64 times above 20000 letters), the first write being the first the freshly assembled record goes through, all outputs byte-identical; where they differ and the record is no longer equal to the deep copy taken before the first write the class is record-altered-by-writing; non-trivial = at least 2 Meta.Other keys, a feature with at least 2 qualifiers, or a location without cached text that has a complemented node below its top level", c03Builds)),
 		newVerifRun("C03", "io/genbank.Build/post/roundtrip-no-panic", src+shapeDom+randDom+"Build(r) and Parse(Build(r)) return without a panic; every case counts; the field clauses below are evaluated on the cases that return"),
-		newVerifRun("C03", "io/genbank.Build/post/roundtrip-sequence", src+shapeDom+randDom+"Parse(Build(r)).Sequence == r.Sequence; every case counts"),
-		newVerifRun("C03", "io/genbank.Build/post/roundtrip-locus", src+shapeDom+randDom+"Parse(Build(r)) equals r in locus name, length, molecule type, topology, division, date; every case counts"),
-		newVerifRun("C03", "io/genbank.Build/post/roundtrip-meta", src+shapeDom+randDom+"Parse(Build(r)) equals r in Definition, Accession, Version, Keywords, Source, Organism and the Other map; non-trivial = a text longer than 68 characters, a keyword with empty text or an Other key"),
-		newVerifRun("C03", "io/genbank.Build/post/roundtrip-references", src+shapeDom+randDom+"Parse(Build(r)) equals r in every reference's Index, Range, Authors, Title, Journal, PubMed, Remark; non-trivial = at least one reference"),
-		newVerifRun("C03", "io/genbank.Build/post/roundtrip-features", src+shapeDom+randDom+"Parse(Build(r)) equals r in feature count, order, keys, locations (text where r has text, structure otherwise) and qualifier maps; non-trivial = at least one feature"),
-		newVerifRun("C03", "io/genbank.Build/post/layout", src+shapeDom+randDom+"an independent column-strict reader (keyword field columns 1-12, sub-keywords indented 2-3, continuation lines blank in 1-12, FEATURES header, key column 6, location/qualifier column 22, ORIGIN rows '%9d' + six groups of ten, // last) recovers every field of r from Build(r); every case counts"),
+		newVerifRun("C03", "io/genbank.Build/post/roundtrip-sequence", src+shapeDom+randDom+"Parse(Build(r)).Sequence == r.Sequence as given (the copy), and r.Sequence after the writes equals the copy (class record-altered-by-writing otherwise); every case counts"),
+		newVerifRun("C03", "io/genbank.Build/post/roundtrip-locus", src+shapeDom+randDom+"Parse(Build(r)) equals r as given (the copy) in locus name, length, molecule type, topology, division, date, and r after the writes equals the copy in them (class record-altered-by-writing otherwise); every case counts"),
+		newVerifRun("C03", "io/genbank.Build/post/roundtrip-meta", src+shapeDom+randDom+"Parse(Build(r)) equals r as given (the copy) in Definition, Accession, Version, Keywords, Source, Organism and the Other map, and r after the writes equals the copy in them (class record-altered-by-writing otherwise); non-trivial = a text longer than 68 characters, a keyword with empty text or an Other key"),
+		newVerifRun("C03", "io/genbank.Build/post/roundtrip-references", src+shapeDom+randDom+"Parse(Build(r)) equals r as given (the copy) in every reference's Index, Range, Authors, Title, Journal, PubMed, Remark, and r after the writes equals the copy in them (class record-altered-by-writing otherwise); non-trivial = at least one reference"),
+		newVerifRun("C03", "io/genbank.Build/post/roundtrip-features", src+shapeDom+randDom+"Parse(Build(r)) equals r as given (the deep copy taken before the first write) in feature count, order, keys, locations (text where r has text, structure otherwise) and qualifier maps, and nothing the writer was given is altered: after the writes (one Build, the further Builds of the determinism clause, Write where the case goes through a file) r itself equals the copy in feature keys, location text, the whole SequenceLocation tree and qualifier maps (class record-altered-by-writing otherwise); non-trivial = at least one feature"),
+		newVerifRun("C03", "io/genbank.Build/post/layout", src+shapeDom+randDom+"an independent column-strict reader (keyword field columns 1-12, sub-keywords indented 2-3, continuation lines blank in 1-12, FEATURES header, key column 6, location/qualifier column 22, ORIGIN rows '%9d' + six groups of ten, // last) recovers every field of r as given (the copy) from the first Build(r); every case counts"),
 	}
 	for _, v := range runs {
 		v.Sampled()
@@ -2750,6 +2998,40 @@ func TestVerifC03(t *testing.T) {
 		c03SetMode(&f, k.mode)
 		return c03Eval(fmt.Sprintf("unbreakable-token place=%s position=%s length=%d source=%s", k.place, c03TokenPositions[k.pos], k.n, c03ModeNames[k.mode]), &f, "")
 	})
+	// joins with complemented operands: a complemented node below the top level
+	type opc struct {
+		arity, pattern, n, nq, mode int
+		outer                       bool
+	}
+	var opcs []opc
+	for arity := 2; arity <= 4; arity++ {
+		for pattern := range c03OpComplPatterns {
+			for _, outer := range []bool{false, true} {
+				for _, n := range []int{12, 345} {
+					for mode := 0; mode < 3; mode++ {
+						opcs = append(opcs, opc{arity, pattern, n, 1 + len(opcs)%2, mode, outer})
+					}
+				}
+			}
+		}
+	}
+	c03Parallel(len(opcs), runs, func(i int) []c03Out {
+		o := opcs[i]
+		rng := c03Rng(7, i)
+		r := c03ShapeRec(rng, o.n, 2, o.nq, c03VPlain, 1)
+		for fi := range r.Feats {
+			ft := &r.Feats[fi]
+			ft.Ranges, ft.Join, ft.Compl, ft.Partial, ft.Single, ft.BreakAfter = nil, true, o.outer, 0, false, nil
+			for k := 0; k < o.arity; k++ {
+				ft.Ranges = append(ft.Ranges, c03RandRange(rng, o.n))
+			}
+			ft.OpCompl = c03OpComplPattern(o.pattern, o.arity)
+			c03FitBreaks(ft)
+		}
+		f := c03File{Recs: []c03Rec{r}, FinalNL: true}
+		c03SetMode(&f, o.mode)
+		return c03Eval(fmt.Sprintf("complemented-operands=%s join-arity=%d inside-complement=%v len=%d qualifiers=%d source=%s", c03OpComplPatterns[o.pattern], o.arity, o.outer, o.n, o.nq, c03ModeNames[o.mode]), &f, "")
+	})
 	c03Parallel(nRand, runs, func(i int) []c03Out {
 		rng := c03Rng(3, i)
 		mode := i % 3
@@ -2758,6 +3040,24 @@ func TestVerifC03(t *testing.T) {
 		p.EmptyTexts = mode != c03ModeImage
 		p.EmptyLocus = mode != c03ModeImage
 		f := c03File{Recs: []c03Rec{c03RandRec(rng, p)}, FinalNL: true}
+		if i%2 == 1 {
+			// every other random record: each join gets, with probability 1/2, a
+			// random non-empty set of complemented operands (drawn from a stream of
+			// its own, so the records themselves are the ones they were)
+			orng := c03Rng(8, i)
+			for fi := range f.Recs[0].Feats {
+				ft := &f.Recs[0].Feats[fi]
+				if !ft.Join || orng.Intn(2) == 0 {
+					continue
+				}
+				ft.OpCompl = make([]bool, len(ft.Ranges))
+				for k := range ft.OpCompl {
+					ft.OpCompl[k] = orng.Intn(2) == 0
+				}
+				ft.OpCompl[orng.Intn(len(ft.OpCompl))] = true
+				c03FitBreaks(ft)
+			}
+		}
 		c03SetMode(&f, mode)
 		via := ""
 		if i%50 == 7 {
